@@ -35,7 +35,8 @@ def cases(rng, tier):
             yield "ckd %s %d %s" % (spec, idx + 2 ** 31, prf), "ckd-prv-hardened"
             yield "ckd %s %d %s" % (pub, idx, prf), "ckd-pub"
             # the request repeated on the SAME parent object: an invalid child must be reported every time
-            pat = rng.choice(["cc", "cd", "dd", "cdd", "dcd"])
+            # (c = ckd, d = derive_path, g / G = bulk generation: every entry point that derives a child)
+            pat = rng.choice(["cc", "cd", "dd", "cdd", "dcd", "g", "gc", "cg", "G", "gd", "Gg"])
             yield "ckd_retry %s %d %s %s" % (spec, idx, prf, pat), "ckd-prv-retry"
             yield "ckd_retry %s %d %s %s" % (pub, idx, prf, pat), "ckd-pub-retry"
             yield "master %s %s %s" % (hx(bytes(rng.getrandbits(8) for _ in range(16))), rng.choice("01"), prf), "master"
